@@ -86,6 +86,30 @@ def pt_match(name, code):
         return False, e
 
 
+def judge_edited(ctx, name, code):
+    """A definition that was accepted, then edited in place into an invalid one, is judged on what it says now."""
+    from pytezos.michelson.sections.view import ViewSection
+    import copy
+    for how in ('name-too-long', 'name-forbidden-char', 'SELF-added'):
+        expr = {'prim': 'view', 'args': [{'string': name}, UNIT_T, UNIT_T, copy.deepcopy(code)]}
+        try:
+            ViewSection.match(expr)
+        except Exception:
+            return
+        if how == 'name-too-long':
+            expr['args'][0]['string'] = 'a' * 40
+        elif how == 'name-forbidden-char':
+            expr['args'][0]['string'] = 'bad name'
+        else:
+            expr['args'][3].append({'prim': 'SELF'})
+        ctx.count('definitions_matched_again_after_an_edit')
+        try:
+            ViewSection.match(expr)
+            ctx.violation('C32|accepts-invalid|edited-after-a-first-match|' + how, 'name=%r' % expr['args'][0]['string'], {'name': name, 'edited': how})
+        except Exception:
+            pass
+
+
 def judge(ctx, name, wrappers, leaf, position='alone', extra=None):
     code = build(wrappers, leaf, position)
     if extra is not None:  # a second, independent subtree in the same view
@@ -100,6 +124,8 @@ def judge(ctx, name, wrappers, leaf, position='alone', extra=None):
     ctx.case((name, tuple(wrappers), leaf, position, repr(extra)), nontrivial=nontrivial)
     if len(ctx.samples) < 4 and len(wrappers) == 2 and LEAVES[leaf][0] == 'restricted':
         ctx.samples.append({'name': name, 'code': code, 'model_accepts': want, 'pytezos_accepts': got})
+    if got and want and ctx.evaluations % 5 == 0 and isinstance(code, list):
+        judge_edited(ctx, name, code)
     if got != want:
         if not model_name_ok(name) and model_code_ok(wrappers, leaf):
             why = 'name-too-long' if len(name) > 31 else 'name-forbidden-char'
@@ -167,5 +193,7 @@ def run(ctx):
 
 
 def replay(ctx, case):
+    if case.get('edited'):
+        return judge_edited(ctx, case['name'], [{'prim': 'UNIT'}])
     ex = case.get('extra')
     judge(ctx, case['name'], case['wrappers'], case['leaf'], case['position'], (ex[0], ex[1], ex[2]) if ex else None)
